@@ -9,5 +9,6 @@ CONSTANTS
   InitStores <- ValStores
   PublishAfterUnlock = TRUE
   CreatedRevalidated = TRUE
+  SubSer = TRUE
 INVARIANT EmitSched
 CHECK_DEADLOCK FALSE
